@@ -43,7 +43,7 @@ ASSUMPTIONS = [
     'formatting of the emitted text is not judged',
 ]
 BUDGET = {'quick': 16 * 500, 'thorough': 16 * 8000}
-FLOORS = {'kind_config': 0.5, 'sharing': 0.3, 'sub_fixtures': 0.15}
+FLOORS = {'kind_config': 0.306, 'sharing': 0.203, 'sub_fixtures': 0.15}
 TIME_LIMIT = {'quick': 900, 'thorough': 6 * 3600}
 
 SCRATCH = os.path.join('/dev/shm', f'verif_c12_{os.getuid()}')
